@@ -124,6 +124,17 @@ pub fn probe(opts: &Opts) -> i32 {
             } else {
                 line
             };
+            // C05 after recovery: every data block is free or inside exactly one recovered record's extent
+            let line = {
+                let format = feoxdb::storage::format::get_format(store.verif_format_version());
+                let owned: u64 = snap.iter().filter(|r| r.sector != 0).map(|r| format.total_size(r.key.len(), r.value_len).div_ceil(4096) as u64).sum();
+                let data_blocks = (std::fs::metadata(&path).map(|m| m.len()).unwrap_or(0) / 4096).saturating_sub(16);
+                if tf / 4096 + owned != data_blocks {
+                    format!("{line} PART-BROKEN free_blocks={} owned_blocks={owned} data_blocks={data_blocks}", tf / 4096)
+                } else {
+                    line
+                }
+            };
             // "a store that does open answers every call without panicking"
             let skip_workload = opts.u64("noworkload", 0) == 1;
             let probe = std::panic::catch_unwind(std::panic::AssertUnwindSafe(|| {
@@ -143,6 +154,8 @@ pub fn probe(opts: &Opts) -> i32 {
                 let _ = store.len();
             }));
             let line = if probe.is_err() { format!("{line} PANIC-after-open") } else { line };
+            // non-empty content without a decodable metadata copy is not a FeOx device
+            let line = if !meta_valid { format!("{line} OPENED-WITHOUT-SIGNATURE") } else { line };
             std::mem::forget(store);
             line
         }
@@ -250,6 +263,20 @@ pub fn genimg(opts: &Opts) -> i32 {
         0 => rng.range(2, 10),
         n => n,
     };
+    // directed key set for paginated readers (migration copies in batches of 256): every key is
+    // followed by a key it is a proper prefix of; with and without one extra key in front, so that
+    // whatever the batch size, a batch ends on a prefix key in one of the two layouts
+    let pairs = opts.u64("prefixpairs", 0);
+    if pairs > 0 {
+        if opts.u64("prefixextra", 0) == 1 {
+            let _ = store.insert(b"0first", b"extra");
+        }
+        for i in 0..pairs {
+            let _ = store.insert(format!("p{i:03}").as_bytes(), format!("parent-{i}").as_bytes());
+            let _ = store.insert(format!("p{i:03}/c").as_bytes(), format!("child-{i}").as_bytes());
+        }
+        let _ = store.flush();
+    }
     let now = store.get_timestamp_pub();
     let hour = 3_600_000_000_000u64;
     for i in 0..nops {
@@ -418,6 +445,8 @@ pub fn open_verdict(line: &str) -> String {
         "FAIL rejected-for-size-or-metadata-but-file-modified".into()
     } else if line.contains("PANIC") {
         "FAIL open-or-read-panicked".into()
+    } else if line.contains("OPENED-WITHOUT-SIGNATURE") {
+        "FAIL non-empty-file-without-a-valid-signature-was-opened-as-a-store".into()
     } else if line.contains("ACCT-BROKEN") {
         "FAIL memory-usage-or-len-after-recovery-differs-from-the-live-records".into()
     } else if line.contains("TIMEOUT") {
